@@ -36,6 +36,8 @@ class Gen:
         self.counter = 0
         self.struct_rt = {}
         self.struct_deser = {}
+        self.const_members = {}   # struct name -> [member declared const?]
+        self.force_ser_only = set()
         self.flavour = {}     # struct name -> ('getters', [is getter per field]) | ('derived', nbases) | ('template', base name, params)
         self.stats = {}
 
@@ -51,6 +53,8 @@ class Gen:
         """the types binlog adapts itself (adapt_std*.hpp, Address.hpp): their tags are structs of this universe"""
         r = self.rng
         k = r.randrange(6)
+        if k == 2 and getattr(self, 'no_time_point', False):
+            k = 3
         if k == 0:
             return ('S', 'std::filesystem::path', [('str', ('Q', ('A', 'c')))])
         if k == 1:
@@ -64,10 +68,24 @@ class Gen:
             return ('S', 'std::error_code', [('message', ('Q', ('A', 'c')))])
         return ('S', 'std::filesystem::directory_entry', [('path', ('S', 'std::filesystem::path', [('str', ('Q', ('A', 'c')))]))])
 
+    def rand_logging_struct(self):
+        """the kind of struct applications log: a few members of everyday types (C strings and strings, integers, floating
+        point, an enum, an optional, a small container), logged only (never deserialized), members often const"""
+        r = self.rng
+        pool = [('Q', ('A', 'c')), ('Q', ('A', 'c')), ('A', 'i'), ('A', 'L'), ('A', 'd'), ('A', 'y'), ('V', [('N',), ('A', 'i')]),
+                ('Q', ('A', 'i')), ('T', [('A', 'i'), ('Q', ('A', 'c'))])]
+        n = r.choice([1, 2, 3, 4])
+        fields = [('m%d' % i, r.choice(pool) if r.random() < 0.85 else self.rand_enum()) for i in range(n)]
+        name = self.fresh('Rec')
+        self.force_ser_only.add(name)
+        return ('S', name, fields)
+
     def rand_ty(self, depth=0, deser_only=False):
         r = self.rng
         if not deser_only and r.random() < 0.07:
             return self.rand_adapter()
+        if not deser_only and r.random() < 0.06:
+            return self.rand_logging_struct()
         if depth >= 4 or r.random() < 0.3:
             k = r.random()
             if k < 0.8:
@@ -81,6 +99,8 @@ class Gen:
                 return ('Q', ('T', [key, self.rand_ty(depth + 2, deser_only)]))
             if r.random() < 0.15:
                 return ('Q', ('Q', ('A', r.choice('ilcB'))))
+            if r.random() < 0.15:
+                return ('Q', ('A', 'c'))          # strings are the most common sequence in logging
             return ('Q', self.rand_ty(depth + 1, deser_only))
         if k < 5:
             return ('T', [self.rand_ty(depth + 1, deser_only) for _ in range(r.choice([0, 1, 2, 2, 3, 4]))])
@@ -213,17 +233,19 @@ class Gen:
                 kinds += ['vector_bool'] if elem['cxx'] == 'bool' else []
             if et[0] == 'A' and et[1] in INT_TAGS + 'c':
                 kinds += ['set', 'multiset']
-            elif comparable_rt(elem):
+            elif comparable_rt(elem) and not contains_map(elem):
                 # associative containers of compound elements (sets of sets / vectors / tuples ...): the insert category of
                 # the deserializer with a non-trivial element
                 kinds += ['set', 'set', 'multiset']
-            if et[0] == 'T' and len(et[1]) == 2 and elem['cxx'].startswith('std::pair') and comparable_rt(elem['elems'][0]) and not moveonly(elem):
+            if et[0] == 'T' and len(et[1]) == 2 and elem['cxx'].startswith('std::pair') and comparable_rt(elem['elems'][0]) and not moveonly(elem) and not contains_map(elem):
                 kinds += ['map', 'map', 'multimap']
             if not deser:
                 kinds += ['array', 'carray' if top else 'fixedseq', 'array_view', 'sizedseq', 'nosizeseq']
                 if et == ('A', 'c'):
                     kinds += ['cstr', 'cstr']
             kind = r.choice(kinds)
+            if getattr(self, 'prefer_cstr', False) and 'cstr' in kinds:
+                kind = 'cstr'
             self.bump('seq-' + kind)
             if kind in ('array', 'carray', 'fixedseq', 'array_view', 'sizedseq', 'nosizeseq', 'cstr', 'map', 'multimap'):
                 n = r.choice([0, 1, 2, 3, 5, 33, 40]) if kind in ('array', 'carray', 'fixedseq') else None
@@ -286,12 +308,20 @@ class Gen:
             else:
                 fields = []
                 deserable = fl[0] != 'getters'
+                # some structs are only ever logged: their members may then be of serialize-only kinds (C strings, views,
+                # arrays, raw pointers ...) and may be declared const
+                ser_only = ty[1] in self.force_ser_only or ((not deser) and fl[0] in ('plain', 'derived') and r.random() < 0.3)
                 for n, t in ty[2]:
-                    f = self.realise(t, True)
+                    f = None if ser_only else self.realise(t, True)
                     if f is None:
+                        self.prefer_cstr = ser_only and r.random() < 0.8
                         f = self.realise(t, False)
+                        self.prefer_cstr = False
                         deserable = False
                     fields.append((n, f))
+                if ser_only:
+                    deserable = False
+                    self.const_members[ty[1]] = [r.random() < 0.6 for _ in fields]
                 self.struct_rt[ty[1]] = fields
                 self.struct_deser[ty[1]] = deserable
                 if not any(f is None for _, f in fields):
@@ -395,7 +425,7 @@ class Gen:
             for (n, f), isg in zip(fields, fl[1]):
                 if isg:
                     priv.append('%s m_%s;' % (f['cxx'], n))
-                    pub.append('const %s& %s() const { return m_%s; }' % (f['cxx'], n, n))
+                    pub.append('%s const& %s() const { return m_%s; }' % (f['cxx'], n, n))
                     ctor_init.append('m_%s(std::move(a_%s))' % (n, n))
                 else:
                     pub.append('%s %s;' % (f['cxx'], n))
@@ -404,7 +434,7 @@ class Gen:
             # members are initialised in declaration order: declare in field order regardless of access
             body = []
             for (n, f), isg in zip(fields, fl[1]):
-                body.append(('private: %s m_%s; public: const %s& %s() const { return m_%s; }' % (f['cxx'], n, f['cxx'], n, n)) if isg
+                body.append(('private: %s m_%s; public: %s const& %s() const { return m_%s; }' % (f['cxx'], n, f['cxx'], n, n)) if isg
                             else ('public: %s %s;' % (f['cxx'], n)))
             self.decls.append('struct %s { %s public: %s(%s) : %s {} };' % (name, ' '.join(body), name, ', '.join(ctor_args), ', '.join(ctor_init)))
             args = ', '.join([name] + names)
@@ -414,7 +444,8 @@ class Gen:
         if fl[0] == 'derived':
             nb = fl[1]
             bases = [f['cxx'] for _, f in fields[:nb]]
-            members = ['%s %s;' % (f['cxx'], n) for n, f in fields[nb:]]
+            cm = self.const_members.get(name, [False] * len(fields))
+            members = ['%s%s %s;' % (f['cxx'], ' const' if c and f['kind'] != 'seq' or (c and f.get('seqkind') != 'carray') else '', n) for (n, f), c in zip(fields[nb:], cm[nb:])]
             self.decls.append('struct %s : %s { %s };' % (name, ', '.join(bases), ' '.join(members)))
             args = ', '.join([name, '(' + ', '.join(bases) + ')'] + names[nb:])
             self.decls.append('MSERIALIZE_MAKE_DERIVED_STRUCT_SERIALIZABLE(%s)' % args)
@@ -435,8 +466,9 @@ class Gen:
             self.decls.append('MSERIALIZE_MAKE_TEMPLATE_TAG(%s)' % args)
             return
         members = []
-        for n, f in fields:
-            members.append('%s %s;' % (f['cxx'], n))
+        cm = self.const_members.get(name, [False] * len(fields))
+        for (n, f), c in zip(fields, cm):
+            members.append('%s%s %s;' % (f['cxx'], ' const' if c else '', n))
         self.decls.append('struct %s { %s };' % (name, ' '.join(members)))
         args = ', '.join([name] + names)
         self.decls.append('MSERIALIZE_MAKE_STRUCT_SERIALIZABLE(%s)' % args)
@@ -481,9 +513,11 @@ class Gen:
                 return '%s{{%s}}' % (rt['cxx'], ', '.join(elems))
             if sk in ('sizedseq', 'nosizeseq'):
                 return '%s{{%s}}' % (rt['cxx'], ', '.join(elems)) if elems else '%s{}' % rt['cxx']
+            if sk == 'array_view' and not elems:
+                return 'binlog::ArrayView<%s>(static_cast<%s const*>(nullptr), static_cast<%s const*>(nullptr))' % (e, e, e)
             if sk == 'array_view':
                 name = 'vr_static_%d' % len(statics)
-                statics.append('static const %s %s[%d] = {%s};' % (e, name, max(1, len(elems)), ', '.join(elems)))
+                statics.append('static %s const %s[%d] = {%s};' % (e, name, max(1, len(elems)), ', '.join(elems)))
                 return 'binlog::array_view(%s, %d)' % (name, len(elems))
             if sk == 'cstr':
                 if val == NULL_CSTR_VAL:
@@ -535,6 +569,25 @@ class Gen:
         raise ValueError(k)
 
 
+def contains_map(rt):
+    """mserialize's insert-category deserializer rebuilds the element type with deep_remove_const, which mangles the
+    allocator of a std::map nested in it (does not compile): such destinations are not deserializable types"""
+    if rt is None:
+        return False
+    k = rt['kind']
+    if k == 'seq':
+        return rt['seqkind'] in ('map', 'multimap') or contains_map(rt['elem'])
+    if k == 'tup':
+        return any(contains_map(e) for e in rt['elems'])
+    if k == 'opt':
+        return contains_map(rt['inner'])
+    if k == 'variant':
+        return any(contains_map(a) for a in rt['alts'])
+    if k == 'struct':
+        return any(contains_map(f) for _, f in rt['fields'])
+    return False
+
+
 def comparable_rt(rt):
     """does the C++ realisation have a strict weak operator< that python can mirror (no floats: NaN)"""
     k = rt['kind']
@@ -556,6 +609,8 @@ def order_key(rt, val):
         raw = val[1]
         return raw - (1 << (8 * size)) if (c in SIGNED and raw >= 1 << (8 * size - 1)) else raw
     if k == 'seq':
+        if rt['seqkind'] == 'string':
+            return tuple(v[1] for v in val[1])       # char_traits<char>::lt compares as unsigned char
         return tuple(order_key(rt['elem'], v) for v in val[1])
     if k == 'tup':
         return tuple(order_key(e, v) for e, v in zip(rt['elems'], val[1]))
